@@ -238,6 +238,40 @@ def ref_quad(f, breaks, a, b, n=24):
     return math.fsum(total)
 
 
+def ref_quad_cond(f, breaks, a, b, n=24):
+    """-> (integral, integral of |f|, total variation of f on [a,b]) from the same Gauss-Legendre(n) samples.
+
+    The total variation gives the rounding both sides of an integral comparison are entitled to: an evaluation point
+    x is itself a computed number with an absolute error of a few ulp(|x|), so f(x) is off by |f'(x)| * u * |x| and
+    an integral of such values by u * max|x| * TV(f).  (A cubic Lagrange function whose knots lie 6e-14 .. 1e-9
+    apart next to x = 2/3 has values of 1e6 on a support of width 1e-9: library, reference and the exact rational
+    integral differ by 1e-7 relative there.)"""
+    import numpy as np
+    if not b > a:
+        return 0.0, 0.0, 0.0
+    xs, ws = np.polynomial.legendre.leggauss(n)
+    br = sorted(set([float(t) for t in breaks if a < t < b] + [float(a), float(b)]))
+    total, total_abs = [], []
+    tv = 0.0
+    last = float(f(br[0]))
+    for i in range(len(br) - 1):
+        l, r = br[i], br[i + 1]
+        h = (r - l) / 2.0
+        vals = [float(f(l + (x + 1.0) * h)) for x in xs]
+        total.append(h * math.fsum(float(w) * v for v, w in zip(vals, ws)))
+        total_abs.append(h * math.fsum(float(w) * abs(v) for v, w in zip(vals, ws)))
+        for v in vals + [float(f(r))]:
+            tv += abs(v - last)
+            last = v
+    return math.fsum(total), math.fsum(total_abs), tv
+
+
+def integral_tolerance(scale, tv, xmax):
+    """absolute tolerance of a basis-integral comparison: 1e-10 * scale (rounding seen on well-separated knots: 1e-14)
+    + 100 * eps * max|x| * TV(f) (evaluation-point rounding, see ref_quad_cond)"""
+    return 1e-10 * scale + 100.0 * 2.220446049250313e-16 * xmax * tv
+
+
 def diff1(f, x, h):
     return (f(x - 2 * h) - 8.0 * f(x - h) + 8.0 * f(x + h) - f(x + 2 * h)) / (12.0 * h)
 
@@ -620,14 +654,18 @@ def weight_clause(out, sub, cx, rng, count=4):
         idx = sorted(set(int(t) for t in rng.integers(0, n, size=min(count, n))))
         for j in idx:
             bf = cx.grid.get_basis(d, j)
-            ref = ref_quad(bf, basis_breaks(bf), lo, hi)
-            sc = max(hi - lo, abs(ref))
-            rel = abs(w[j] - ref) / sc
-            relmax = max(relmax, rel)
-            if not rel <= 1e-10:                 # rounding seen: 2e-15
+            breaks = basis_breaks(bf)
+            ref, ref_abs, tv = ref_quad_cond(bf, breaks, lo, hi)
+            sc = max(hi - lo, abs(ref), ref_abs)
+            tol = integral_tolerance(sc, tv, max([abs(lo), abs(hi)] + [abs(t) for t in breaks]))
+            err = abs(w[j] - ref)
+            relmax = max(relmax, err / sc)
+            info_max(out, "basis_integral_err_over_tol", err / tol)
+            if not err <= tol:
                 out.bad("%s/basis-integral/%s-%s" % (sub, cx.family, cx.mode),
                         "%s: dim %d: stored integral of basis %d is %r, Gauss-Legendre(24) quadrature of its values over "
-                        "[%r,%r] split at its knots gives %r" % (cx.describe(), d, j, w[j], lo, hi, ref))
+                        "[%r,%r] split at its knots gives %r (tolerance %.3g; integral of |f| %.3g, total variation %.3g)"
+                        % (cx.describe(), d, j, w[j], lo, hi, ref, tol, ref_abs, tv))
                 break
     info_max(out, "basis_integral_rel_err", relmax)
 
@@ -669,14 +707,16 @@ def run_roundtrip(case, sub):
     from sparseSpACE.Function import FunctionCustom
     from sparseSpACE.Hierarchization import HierarchizationLSG
     out = Outcome()
-    rng = np.random.default_rng(int(case["rng"]))
     nout = int(case["out"])
     vscale = float(case.get("vscale", 1.0))
     out.cls("output-length=%d" % nout)
     direct_op = {}
 
     def one_round(out, cx):
-        """all clauses for the configuration the grid object is set up for; True = fully checked (not skipped)"""
+        """all clauses for the configuration the grid object is set up for; True = fully checked (not skipped).
+        Every random choice of a round comes from a generator seeded with (case rng, round number), so the re-run of a
+        round on a fresh grid object (drive_rounds) repeats exactly the same clauses on exactly the same data."""
+        rng = np.random.default_rng([int(case["rng"]), int(cx.round)])
         common_classes(out, cx)
         N = int(math.prod(cx.shape))
         if N == 0:
@@ -754,10 +794,10 @@ def run_polynomials(case):
     from sparseSpACE.Function import FunctionCustom
     out = Outcome()
     sub = "polynomials"
-    rng = np.random.default_rng(int(case["rng"]))
     seen = dict(kmax=0)
 
     def one_round(out, cx):
+        rng = np.random.default_rng([int(case["rng"]), int(cx.round)])     # see run_roundtrip.one_round
         common_classes(out, cx)
         if int(math.prod(cx.shape)) == 0:
             out.cls("empty-grid")
@@ -1016,12 +1056,13 @@ def check_basis_object(out, sub, kind, f, info, p, rng, nsamples=6):
     # integral
     xs, ws = np.polynomial.legendre.leggauss(int(p / 2) + 1)
     lib = float(f.get_integral(info["ia"], info["ib"], xs, ws))
-    ref = ref_quad(f, knots, info["ra"], info["rb"])
-    fabs = ref_quad(lambda t: abs(f(t)), knots, info["ra"], info["rb"])
+    ref, fabs, tv = ref_quad_cond(f, knots, info["ra"], info["rb"])
     sc = max(fabs, abs(info["rb"] - info["ra"]), 1e-300)
+    tol = integral_tolerance(sc, tv, max([abs(info["ra"]), abs(info["rb"])] + [abs(t) for t in knots]))
     rel = abs(lib - ref) / sc
     out.info["integral_rel_err"] = rel
-    if not rel <= 1e-10:                         # rounding seen 3e-15
+    out.info["integral_err_over_tol"] = abs(lib - ref) / tol
+    if not abs(lib - ref) <= tol:                # rounding seen 3e-15 * scale
         out.bad("%s/integral/%s" % (sub, kind),
                 "%s p=%d knots=%s index=%s: get_integral(%r, %r, Gauss(%d)) = %r, quadrature of __call__ over [%r,%r] = %r"
                 % (kind, p, [round(t, 6) for t in knots][:12], getattr(f, "index", None), info["ia"], info["ib"],
@@ -1402,6 +1443,10 @@ def selftest():
     # reference quadrature and stencils on closed forms
     assert abs(ref_quad(lambda x: x ** 3, [0.3, 0.7], 0.0, 1.0) - 0.25) < 1e-15
     assert abs(ref_quad(lambda x: abs(x - 0.5), [0.5], 0.0, 1.0) - 0.25) < 1e-15
+    q, qa, tv = ref_quad_cond(lambda x: x ** 3 - 0.125, [0.5], 0.0, 1.0)       # integral 0.125, |f|: 3/32+7/32-... , TV 1
+    assert abs(q - 0.125) < 1e-15 and abs(tv - 1.0) < 1e-12 and abs(qa - (0.125 * 0.5 - 1 / 64.0 + 15 / 64.0 - 0.0625)) < 1e-15
+    # well separated knots: the tolerance is 1e-10 * scale; knots 1e-9 apart at x = 2/3 with values of 1e6: ~1e-7 * integral
+    assert integral_tolerance(1.0, 2.0, 1.0) < 1.1e-10 and 1e-8 < integral_tolerance(1.3e-3, 4e6, 0.667) < 1e-7
     assert abs(diff1(lambda x: x ** 4, 0.5, 1e-3) - 0.5) < 1e-10 and abs(diff2(lambda x: x ** 4, 0.5, 1e-3) - 3.0) < 1e-8
     assert abs(diff1(math.sin, 0.3, 1e-3) - math.cos(0.3)) < 1e-12
     # tree builder
